@@ -47,7 +47,7 @@ add(Contract(
                       "token": "obj:Token", "itemLines": "opaque", "isTerminatingParagraph": "bool"},
             "inv": [("lines", "nextLine == startLine and S0 <= startLine and startLine < endLine and endLine <= state.lineMax"),
                     ("first-or-later", "startLine == S0 or (S0 < startLine and startLine <= state.lineMax)"),
-                    ("state-line", "state.line == startLine"),
+                    ("state-line", "state.line == startLine"), ("item-line-indented", "state.sCount[startLine] >= state.blkIndent"),
                     ("marker", MARKER_AT), ("ordered-start", "implies(isOrdered, start == state.bMarks[startLine] + state.tShift[startLine] and posAfterMarker - 1 > start)"),
                     ("not-silent", "not silent"), ("level", "state.level == old(state.level) + 1"), ("listLines", "len(listLines) == 2"),
                     ("saved-parent", "oldParentType == old(state.parentType)"), ("blk", "state.blkIndent >= 0")] + TABLES_SAME + LENS + CTX,
